@@ -56,6 +56,14 @@ def gen_cases(rng, tier, scale):
         for hk in (4, 5, 6, 7):
             cases.append(rcase(f'hv{k}_{hk}', tpl, {'o': {'k': 1}, 'l': [1, 2], 't': True}, pre=['probes', f'hooks {hk}', 'esc 2'], partials={'p': '{{{zz}}}{{zz}}'}, entry=0,
                                kind='exact', exp=exp, tags=['value-returning-hook']))
+    # a decorator-registered local helper that honours the escape toggle (tag "e:..."): as a subexpression its text reaches
+    # the outer helper unescaped; written by {{ }} it is escaped once, by {{{ }}} never
+    LT = 'local(e:t:-:v:-:u1)'
+    ML = '\x01' + LT + '\x02'
+    for k, (tpl, exp) in enumerate([('{{*sethelper "lh" "e:t"}}{{lh 1}}|{{{lh 1}}}|{{id (lh 1)}}|{{{id (lh 1)}}}', f'{ML}|{LT}|{ML}|{LT}'),
+                                    ('{{*sethelper "lh" "e:t"}}{{#if (lh 1)}}{{v}}{{/if}}|{{lookup o (lh 1)}}|{{v}}', '\x01<\x02|\x01\x02|\x01<\x02'),
+                                    ('{{*sethelper "lh" "e:t"}}{{#each l}}{{id (lh 1)}}{{/each}}', ML + ML)]):
+        cases.append(rcase(f'lh{k}', tpl, {'v': '<', 'o': {'k': 1}, 'l': [1, 2]}, pre=['probes', 'esc 2'], entry=0, kind='exact', exp=exp, tags=['escape-honouring-local-helper']))
     # default escape and no_escape at a few positions
     for k in range(60 * scale):
         v = rs(rng)
